@@ -1,7 +1,32 @@
-/- Driver glue for C08: case lines `c08.<sub> <args…> | <impl…>` (stub until the property is built) -/
+/-
+  Driver glue for C08. Case line:
+    c08.trace <workers> <count> <bytes> <tmode> <adders> <seed> <stopAt> <race> <nev> (<size> <kind>)*n | <trace tokens>
+  The trace is the implementation result; the model replays it (Model/BatcherTrace.lean) and
+  prints the tokens it computes itself; `P` is SpecC08.holds on the observed trace.
+-/
 import FileD.Prelude.Tok
+import FileD.Model.BatcherTrace
+import FileD.Spec.C08
 namespace FileD.DrvC08
+open FileD Tok Batcher
 
-def handle (_cmd : String) (_args _impl : List String) : Option (String × String) := none
+/-- logical timeout used by the replay (any value works: time enters only through the status of `s`) -/
+def logicalTimeout : Nat := 10
+
+def handle (cmd : String) (args impl : List String) : Option (String × String) :=
+  if cmd ≠ "c08.trace" then none else
+  match args with
+  | w :: cnt :: byt :: _ => do
+    let workers ← nat? w
+    let maxCount ← nat? cnt
+    let maxBytes ← nat? byt
+    let cfg : Cfg := { workers, maxCount, maxBytes, timeout := logicalTimeout, enqueueLocked := true }
+    match parseTks (impl.length + 1) impl with
+    | none => pure ("bad-trace", "bad-impl")
+    | some tks =>
+      let m := renderReplay (replay cfg { st := init cfg } tks 0 [])
+      let p := if SpecC08.holds maxCount maxBytes tks then "ok" else "fail"
+      pure (m, p)
+  | _ => none
 
 end FileD.DrvC08
